@@ -128,6 +128,12 @@ func H_custom() {
 	if asOpt {
 		app.Var(VarOpt{Name: "x xx", Value: val, EnvVar: "CE", SetByUser: &user, HideValue: true})
 		app.Spec = "[-x...]"
+		if vParamInt("withArg") == 1 {
+			// a positional argument that always converts follows the option values
+			app.String(StringArg{Name: "Y"})
+			app.Spec = "[-x...] [Y]"
+			argv = append(argv, "pos")
+		}
 	} else {
 		app.Var(VarArg{Name: "X", Value: val, EnvVar: "CE", SetByUser: &user, HideValue: true})
 		app.Spec = "[X...]"
